@@ -242,6 +242,7 @@ const (
 	planSwap  // deliver after the next packet of the same direction
 	planCorrupt
 	planZeroCRC
+	planDupLate // deliver normally and a second copy planDelayBy later
 )
 
 type simNet struct {
@@ -337,6 +338,12 @@ func (n *simNet) send(dir int, to *simConn, pkt *wirePacket) {
 		n.push(now+delay, to, data, pkt)
 		extra := time.Duration(1+tp.intn(20)) * time.Millisecond
 		n.push(now+delay+extra, to, data, pkt)
+		return
+	case planDupLate:
+		st.Duplicated++
+		pkt.fate = "dup-late"
+		n.push(now+delay, to, data, pkt)
+		n.push(now+delay+n.planDelayBy, to, data, pkt)
 		return
 	case planDelay:
 		st.Held++
